@@ -121,6 +121,8 @@ def _stat(path, *a, **k):
     m = fs.meta.get(p) if isinstance(p, str) else None
     if m is None and isinstance(p, str) and fs.inside(p):
         m = fs.meta.get(os.path.abspath(p))
+        if m is None and k.get("follow_symlinks", True):
+            m = fs.meta.get(os.path.realpath(p))          # a symbolic link inside the tree: the target's (virtual) times
     if m is None:
         return st
     fs.stat_calls += 1
